@@ -273,7 +273,13 @@ func (m *extensionMap) Clear(xd protoreflect.ExtensionTypeDescriptor) {
 func (m *extensionMap) Get(xd protoreflect.ExtensionTypeDescriptor) protoreflect.Value {
 	if m != nil {
 		if x, ok := (*m)[int32(xd.Number())]; ok {
-			return x.Value()
+			v := x.Value()
+			if xd.IsList() && v.List().Len() == 0 {
+				// Not populated: hand out a read-only empty list
+				// rather than the stored one.
+				return xd.Type().Zero()
+			}
+			return v
 		}
 	}
 	return xd.Type().Zero()
